@@ -132,3 +132,14 @@ def _e_windows():
                             for ws in (True, False):
                                 yield concrete_inputs(dict(source={'_index': {'_len': n}}, size=size, axis=0, step=step, window_sized=ws,
                                                            label_shift=ls, start_shift=ss, size_increment=inc))
+
+
+@enum('LocMap.map_slice_args', 'label slices over 4 held labels + 1 absent label (start, stop in labels U {None, absent}), step in {None,1,2,-1}, offset in {None,0,3}')
+def _e_mapslice():
+    labels = ['a', 'b', 'c', 'd']
+    mp = {l: i for i, l in enumerate(labels)}
+    for a in [None] + labels + ['zz']:
+        for b in [None] + labels + ['zz']:
+            for c in (None, 1, 2, -1):
+                for off in (None, 0, 3):
+                    yield dict(label_to_pos=mp.get, key=slice(a, b, c), labels=None, offset=off, _map=mp)
